@@ -114,6 +114,11 @@ pub fn build(r: &mut Rng, kind: ConnKind, client: Endpoint, server: Endpoint, o:
             if o.tls_single_segment {
                 spec.target_len = spec.target_len.min(1200);
             }
+            // record bodies exactly at and around the protocol's limits, one hello in sixteen (whole, in one segment when
+            // the scenario asks for single-segment hellos: a large-MTU or offloaded capture)
+            if r.chance(1, 16) {
+                spec.exact_body = Some(*r.pick(&[16383usize, 16384, 16385, 16639, 16640, 16641, 255, 256, 65535 - 5]));
+            }
             let mut c = tls::client_hello(r, &spec);
             if !o.tls_single_segment {
                 let ok = c.len() <= 16000;
@@ -255,6 +260,22 @@ pub fn build(r: &mut Rng, kind: ConnKind, client: Endpoint, server: Endpoint, o:
                 st.seg.flags |= *r.pick(&[0x40u8, 0x80, 0xc0]);
             }
         }
+    }
+    // link layer: one connection in five is captured on the wire (short frames zero-padded to the 60-byte minimum),
+    // one in twenty with a few trailer bytes after every IP packet
+    match r.below(20) {
+        0..=3 => {
+            for st in steps.iter_mut() {
+                st.seg.trailer = 1;
+            }
+        }
+        4 => {
+            let n = 2 + r.below(8) as u8;
+            for st in steps.iter_mut() {
+                st.seg.trailer = n;
+            }
+        }
+        _ => {}
     }
     // hop counts vary: on one connection in eight either side's packets arrive with an arbitrary TTL
     if r.chance(1, 8) {
